@@ -332,6 +332,14 @@ func c17TokenPos(c *Ctx) {
 						okSym = true
 					}
 				}
+				if cls := g.tokenClass(sym); !okSym && len(cls) > 0 {
+					// an operator-class non-terminal hands its token up unchanged: its position is that token's
+					am := map[string]bool{}
+					for _, a := range allowed {
+						am[a] = true
+					}
+					okSym = allIn(cls, am)
+				}
 				rest := m[2]
 				// a position copied from a child node's own position field: admissible when that field's token kinds
 				// are among the kinds this field expects ($1.LBracePos.Pos of a block, $2.InExpr().OpPos.Pos)
